@@ -133,8 +133,10 @@ pub fn run_case(c: &CompatCase, st: &mut Stats) -> Result<(), Failure> {
     };
     let attr_enum_bad = has_attr_enum_outside(&doc.root, t as u32);
     let reason_class = |e: &str| -> &'static str {
-        if e.contains("Multiple conflicting sub elements") {
-            "choice-conflict-in-target"
+        if e.contains("Multiple conflicting sub elements") || (e.contains("Only one ") && e.contains("is allowed inside")) {
+            // the content model of the parent differs in the target version (choice instead of sequence, single instead of
+            // repeated): the check looks at items one by one (KF-C17-5)
+            "content-model-in-target"
         } else if e.contains("Attribute ") && e.contains("but is not allowed in") {
             // a KNOWN attribute whose version mask excludes the target (the recorded gap KF-C17-2 is about attributes the
             // target's element type does not know at all)
@@ -260,8 +262,10 @@ pub fn run_mislabel_case(c: &CompatCase, label: usize, st: &mut Stats) -> Result
     }
     let attr_enum_bad = has_attr_enum_outside(&doc.root, t as u32);
     let reason_class = |e: &str| -> &'static str {
-        if e.contains("Multiple conflicting sub elements") {
-            "choice-conflict-in-target"
+        if e.contains("Multiple conflicting sub elements") || (e.contains("Only one ") && e.contains("is allowed inside")) {
+            // the content model of the parent differs in the target version (choice instead of sequence, single instead of
+            // repeated): the check looks at items one by one (KF-C17-5)
+            "content-model-in-target"
         } else if e.contains("Attribute ") && e.contains("but is not allowed in") {
             // a KNOWN attribute whose version mask excludes the target (the recorded gap KF-C17-2 is about attributes the
             // target's element type does not know at all)
